@@ -41,7 +41,8 @@ def jobs(pid, tier, seed):
         out += [{"kind": "bulk_list", "n": n, "allow_list": a} for n in (1010, 1200) for a in (1, 0)]
     if pid in ("C01", "C02"):
         out += [{"kind": "lazy", "n": n} for n in (0, 1, 2, 99, 100, 101, 250, 520)]
-        out += [{"kind": "lazy", "pipeline": k} for k in ("adds-drop", "adds-closing", "open-close")]
+        out += [{"kind": "lazy", "pipeline": k} for k in ("adds-drop", "adds-closing", "open-close",
+                                                          "adds-drop-burst", "adds-closing-burst", "open-close-burst")]
         out += [{"kind": "lazy", "seed": seed * 1000003 + 700000 + i} for i in range(200 if tier == "quick" else 4000)]
     if pid in ("C02", "C17"):
         # the real process over real TCP: an add processed while a subscriber's closing handshake is under way
@@ -247,18 +248,28 @@ def run_lazy(pid, job, acc):
         y = b.conn("app", "s2")
         b.send(y, type="open", mailbox="pl")
         x = b.conn()
+        burst = job["pipeline"].endswith("-burst")
+        kind = job["pipeline"].replace("-burst", "")
+        if burst:
+            b.h.append(["hold"])        # everything up to "turns"/"unhold" arrives in one segment: one reactor turn
         b.send(x, type="bind", appid="app", side="s1")
         b.send(x, type="open", mailbox="pl")
         bodies = []
-        if job["pipeline"] in ("adds-drop", "adds-closing"):
+        if kind in ("adds-drop", "adds-closing"):
             for i in range(3):
                 bodies.append(b.add(x, "p%d" % i, id="i%d" % i))
-            if job["pipeline"] == "adds-closing":
-                b.h.append(["closing", x])
+            if kind == "adds-closing":
+                b.h.append(["closing", x])      # the Close frame is in the same segment
+            if burst:
+                b.h.append(["turns", 1])        # one turn passes before the loss of the connection is seen
             b.drop(x)
+            if burst:
+                b.h.append(["unhold"])
             b.send(y, type="ping", ping=1)
         else:
             b.send(x, type="close", mood="happy")
+            if burst:
+                b.h.append(["unhold"])
             bodies.append(b.add(y, "after-close"))
             b.send(y, type="ping", ping=1)
             bodies.append(b.add(y, "after-close2"))
